@@ -69,6 +69,7 @@ def common(eng):
     T.FNode.observers["is_constant"] = ((), Bool)
     T.FNode.observers["is_fluent_exp"] = ((), Bool)
     T.FNode.observers["is_dot"] = ((), Bool)
+    T.Timing.observers["is_from_end"] = ((), Bool)
     T.FNode.attrs["args"] = T.fnode_args
     T.FNode.attrs["environment"] = lambda e, st, x: B.uf_value(e, st, "FNode._env23", [x.z], [T.FNode.z3sort()], Env)
 
@@ -191,15 +192,15 @@ class AddFluent(Unit):
 
 class AddEffect(Unit):
     prop = "C23"
-    allowed_raises = (UPTypeError, UPUsageError, UPConflictingEffectsException, AssertionError)
+    allowed_raises = (UPTypeError, UPUsageError, UPConflictingEffectsException, AssertionError, UPProblemDefinitionError)
 
-    def __init__(self, meth):
-        self.meth = meth
-        self.name = f"UntimedEffectMixin.{meth}"
+    def __init__(self, meth, cls=None, timed=False, envfield="_environment"):
+        self.meth, self.cls, self.timed, self.envfield = meth, cls or trm.UntimedEffectMixin, timed, envfield
+        self.name = f"{self.cls.__name__}.{meth}"
         self.doc = "the effect passed on has a value compatible with its fluent; nothing stored before the checks; raise leaves _effects unchanged"
 
     def target(self):
-        return getattr(trm.UntimedEffectMixin, self.meth)
+        return getattr(self.cls, self.meth)
 
     def configure(self, eng):
         common(eng)
@@ -210,21 +211,29 @@ class AddEffect(Unit):
             st.ghost["made"] = st.ghost.get("made", []) + [(eff, args[0], args[1])]
             yield st, eff
         eng.class_models[up.model.effect.Effect] = mk_effect
+        timed = self.timed
+
         def add_inst(e, st, args, kw):
             selfv = args[0]
-            st.ghost["handed"] = st.ghost.get("handed", []) + [args[1]]
+            st.ghost["handed"] = st.ghost.get("handed", []) + [args[2] if timed else args[1]]
             yield st.fork().note("conflict"), ExcVal(UPConflictingEffectsException, (), "_add_effect_instance")
             yield st, None
-        eng.contracts[trm.UntimedEffectMixin._add_effect_instance] = add_inst
+        eng.contracts[self.cls._add_effect_instance] = add_inst
+        eng.partial_classes.add(self.cls)
 
     def setup(self, eng, st):
-        ef0 = eng.fresh_of(st, Seq(T.Effect), "effects")
-        ef = st.alloc(ef0, "list")
+        if self.timed:
+            ef0 = eng.fresh_of(st, Map(T.Timing, T.Effect), "effects")     # abstraction of Dict[Timing, List[Effect]]: only its identity/content frame matters here
+            ef = st.alloc(ef0, "dict")
+        else:
+            ef0 = eng.fresh_of(st, Seq(T.Effect), "effects")
+            ef = st.alloc(ef0, "list")
         env = Env.fresh("env")
-        selfv = st.alloc(Rec(trm.UntimedEffectMixin, {"_environment": env, "_effects": ef}), "self")
+        selfv = st.alloc(Rec(self.cls, {self.envfield: env, "_effects" if self.cls is not up.model.problem.Problem else "_timed_effects": ef}), "self")
         fl, val, cond = T.FNode.fresh("fluent"), T.FNode.fresh("value"), T.FNode.fresh("condition")
-        args = [selfv, fl, val, cond]
-        return args, {}, dict(ef=ef, ef0=ef0)
+        timing = T.Timing.fresh("timing")
+        args = [selfv] + ([timing] if self.timed else []) + [fl, val, cond]
+        return args, {}, dict(ef=ef, ef0=ef0, timing=timing)
 
     def post(self, eng, ctx, st, out):
         ef1 = st.load(ctx["ef"])
@@ -239,6 +248,8 @@ class AddEffect(Unit):
         st.oblige("the handed effect is the built one", handed[0].z == eff.z)
         st.oblige("effect value is compatible with the fluent", compat(ftype(f.z), ftype(v.z)))
         st.oblige("effect target is a fluent expression or a Dot", z3.Or(obs("is_fluent_exp", f), obs("is_dot", f)))
+        if self.cls is up.model.problem.Problem and self.meth == "add_timed_effect":
+            st.oblige("a timed effect is never relative to the end", z3.Not(B._uf("Timing.is_from_end()", T.Timing.z3sort(), z3.BoolSort())(ctx["timing"].z)))
 
     def replay(self, ctx, model, label):
         return replay_concrete({"case": self.meth})
@@ -309,7 +320,7 @@ class ActionInstanceInit(Unit):
             return z3.ForAll([j], z3.Implies(z3.And(0 <= j, j < i), z3.And(
                 compat(fld(ParamT, "type", T.Type)(z3.Select(ps.arr, j)), ftype(z3.Select(vs.arr, j))),
                 is_const_obs(z3.Select(vs.arr, j)))))
-        eng.loops[("ActionInstance.__init__", 0)] = LoopSpec(inv)
+        eng.loops[("unified_planning.plans.plan.ActionInstance.__init__", 0)] = LoopSpec(inv)
 
     def setup(self, eng, st):
         selfv = st.alloc(Rec(planm.ActionInstance, {}), "self")
@@ -336,8 +347,14 @@ def is_const_obs(z):
     return fobs("is_constant")(z)
 
 
+import unified_planning.model.mixins.timed_conds_effs as tce
 UNITS = [SetInitialValue(), AddFluent(), AddEffect("add_effect"), AddEffect("add_increase_effect"), AddEffect("add_decrease_effect"),
-         AddEffectInstance(), ActionInstanceInit()]
+         AddEffectInstance(), ActionInstanceInit(),
+         AddEffect("add_effect", tce.TimedCondsEffs, timed=True), AddEffect("add_increase_effect", tce.TimedCondsEffs, timed=True),
+         AddEffect("add_decrease_effect", tce.TimedCondsEffs, timed=True),
+         AddEffect("add_timed_effect", up.model.problem.Problem, timed=True, envfield="_env"),
+         AddEffect("add_increase_effect", up.model.problem.Problem, timed=True, envfield="_env"),
+         AddEffect("add_decrease_effect", up.model.problem.Problem, timed=True, envfield="_env")]
 
 
 # ----------------------------------------------------------------------------------------------- bounded layer
